@@ -14,13 +14,14 @@ RULE = ('accepted base texts x insertion points (every item boundary at every de
 F = CFGF
 
 SUB2 = [Opt('int', b'z', 0, 1), Opt('strl', b'w', 0, None)]
-SUB = [Opt('int', b'a', 0, 1), Opt('intl', b'l', 0, b'{5}'), Opt('sec', b'in', F['MULTI'] | F['TITLE'], None, SUB2)]
+SUB = [Opt('int', b'a', 0, 1), Opt('intl', b'l', 0, b'{5}'), Opt('sec', b'in', F['MULTI'] | F['TITLE'], None, SUB2),
+       Opt('func', b'g', func='user:1')]
 SCHEMA = [Opt('int', b'i', 0, 7), Opt('str', b's', 0, b'd'), Opt('intl', b'il', 0, b'{1,2}'), Opt('sec', b'sec', 0, None, SUB),
-          Opt('sec', b'm', F['MULTI'], None, SUB), Opt('bool', b'b', 0, 0)]
+          Opt('sec', b'm', F['MULTI'], None, SUB), Opt('bool', b'b', 0, 0), Opt('func', b'fn', func='user:0')]
 
 
 def unknown_item(r, depth):
-    name = r.pick([b'unk', b'zz', b'new_opt', b'"quoted name"', b'x.y'])
+    name = r.pick([b'unk', b'zz', b'new_opt', b'"quoted name"', b'x.y', b'unk', b'zz', b'""', b"''", b'${NOSUCHVAR}'])
     c = r.below(12)
     v = lambda: r.pick([b'1', b'word', b'"a b"', b"'q'", b'0x1f', b'true', b'""', b'${HOME}'])
     if c == 0:
@@ -58,6 +59,8 @@ def base_items(r, schema, depth):
         if o.kind == 'sec':
             title = b' ' + r.pick([b'x', b'y', b'"z z"']) if o.flags & F['TITLE'] else b''
             out.append((o.name + title + b' {', base_items(r, o.sub, depth + 1) if depth < 2 else [], b'}'))
+        elif o.kind == 'func':
+            out.append(o.name + b'(' + b', '.join(r.pick([b'p', b'"q r"', b'7']) for _ in range(r.below(3))) + b')')
         elif o.is_list():
             out.append(o.name + r.pick([b' = {3, 4}', b' += {9}', b' = {}', b' = 6']))
         else:
@@ -119,18 +122,25 @@ def generate(rng, tier):
     # fixed shapes named in the property, and the depth soak
     shapes = [b'unk {}', b'unk { a = 1 }', b'unk t { }', b'unk { inner { a = 1 } }', b'unk += {1}', b'unk = {1, 2}', b'unk(a)',
               b'unk { } unk2 { }', b'unk { x { y { z { } } } }', b'unk = v', b'unk "t t" { k = v }', b'unk { fn(a, b) }',
-              b'unk { l = {1,2} }', b'unk { l += {1} }']
+              b'unk { l = {1,2} }', b'unk { l += {1} }', b'unk(a, b)', b'unk("x", y)', b'"" = 1', b"'' = {a, b}", b'""(a, b)', b"'' t { }",
+              b'${NOSUCHVAR} = on']
     deep = 20000 if tier == 'quick' else 100000
     shapes += [b'unk { ' * deep + b'} ' * deep, b'unk {' + b' a { b = 1 }' * (deep // 10) + b' }']
     for s in shapes:
         for base, mk in ((b'i = 1\ns = "x"', lambda u: b'i = 1\n' + u + b'\ns = "x"'), (b'sec { a = 2 l = {3} }', lambda u: b'sec { a = 2\n' + u + b'\nl = {3} }'),
-                         (b'b = true', lambda u: u + b'\nb = true'), (b'b = true', lambda u: b'b = true\n' + u)):
+                         (b'b = true', lambda u: u + b'\nb = true'), (b'b = true', lambda u: b'b = true\n' + u),
+                         (b'fn(z)\nsec { g(w) }', lambda u: u + b'\nfn(z)\nsec { ' + u + b' g(w) }')):
             n += 1
             yield scenario('s%d' % n, base, mk(s), F['IGNORE_UNKNOWN'], 'ignore/shape', 3 if len(s) < 1000 else 10 ** 4)
 
 
 def nontrivial(scn, il):
     return scn.meta['ntok'] >= 3
+
+
+def cbs(l):
+    m = re.search(r'cbs=\[([^\]]*)\]', l)
+    return m.group(1) if m else '?'
 
 
 def oracle(scn, il):
@@ -146,6 +156,8 @@ def oracle(scn, il):
             out.append(('not-skipped', '%s: text with an unknown item rejected: %s\n%s' % (scn.id, mod[:200], scn.lines[-3][:300])))
         elif 'diags=[]' not in mod:
             out.append(('diagnostic', '%s: skipping produced a diagnostic: %s' % (scn.id, mod[:200])))
+        elif cbs(base) != cbs(mod):
+            out.append(('changed-calls', '%s: the unknown item changed the calls of declared functions: %s vs %s' % (scn.id, cbs(base), cbs(mod))))
         elif d0[5:] != d1[5:]:
             out.append(('changed-values', '%s: the unknown item changed the tree\n %s\n %s' % (scn.id, d0[:700], d1[:700])))
     else:
